@@ -4,7 +4,7 @@ import json, glob, os
 rows=[]
 for mf in sorted(glob.glob('/verif/seeded/*/meta.json')):
     rows.append(json.load(open(mf)))
-def rnd(m): return 2 if 'round 2' in m['origin'] else 1
+def rnd(m): return m.get('round') or (2 if 'round 2' in m['origin'] else 1)
 out=[]
 out.append("# Independently seeded defects\n")
 out.append("Each directory holds one change to krotik/ecal written by a fresh sub-agent that was given only the text of one\n"
@@ -15,7 +15,7 @@ out.append("Each directory holds one change to krotik/ecal written by a fresh su
 "what it needs to manifest, what I ran, and which rule reports it. None of these changes was ever committed to /repo.\n"
 "`tools/try_seed.sh <patch> [Cxx ..]` applies one to /repo, runs the quick checks and undoes it; every thorough run applies\n"
 "all of them to scratch copies (self-validation) and records the outcome in the evidence.\n")
-for r in (1,2):
+for r in (1,2,3):
     rs=[m for m in rows if rnd(m)==r]
     key='detected_before_strengthening' if r==1 else 'detected_at_first_contact'
     first=sum(1 for m in rs if m.get(key))
@@ -25,6 +25,10 @@ for r in (1,2):
         out.append("Round 1 was run against the checker as it stood after the first build (rules R..a–d). The 25 misses drove the rules\n"
                    "added afterwards; those rules were therefore written *knowing* the seeds. Round 2 is the unbiased measurement of the\n"
                    "strengthened checker.\n")
+    elif r==3:
+        out.append("Round 3 was run after both refactoring rounds (DESIGN 7.4), again with fresh sub-agents that were told which four\n"
+                   "earlier changes per property to avoid. Several first-contact reports are side reports of another property's rule on\n"
+                   "the restructured part of a change rather than a diagnosis of the defect; the table lists exactly what reported.\n")
     else:
         out.append("Round 2 was run with fresh sub-agents that were additionally told which round-1 changes to avoid. 'First contact' is\n"
                    "what the checker reported before any rule was written for the seed; UNDECIDED means the checker failed because a shape\n"
